@@ -207,7 +207,11 @@ class Run:
                          REQUEST_RESPONSE_DELAY_MIN=cfg["rr"][0], REQUEST_RESPONSE_DELAY_MAX=cfg["rr"][1],
                          REPETITIONS_MAX=cfg["reps"], REPETITIONS_BASE_DELAY=BD, CYCLIC_OFFER_DELAY=cfg["cyclic"],
                          ANNOUNCE_TTL=cfg["ttl"], SEND_COLLECTION_TIMEOUT=cfg["ct"])
-        self.prot, self.tr = net.make_sd(self.h.loop, ("10.0.7.1", 30490), timings=tm)
+        # the TTL an instance offers with is the one in ITS timings (ServiceInstance takes its own Timings object); the
+        # protocol-wide timings may say something else
+        import dataclasses
+        tm_proto = tm if (len(script) + ninst) % 2 else dataclasses.replace(tm, ANNOUNCE_TTL=7 if cfg["ttl"] != 7 else 9)
+        self.prot, self.tr = net.make_sd(self.h.loop, ("10.0.7.1", 30490), timings=tm_proto)
         self.insts = []
         self.ref_opts = []
         import zlib
